@@ -12,6 +12,32 @@ SUB = "swcgeom/core/swc_utils/subtree.py"
 REMOVAL = -2
 
 
+def local_collection_name(key, kind, default="removals"):
+    """name of the carrier's local that collects the removals, read off its current AST (so that the local may be renamed):
+    kind 'list' -> the first local initialised with `[]`, kind 'set' -> the first local initialised with `set(...)`"""
+    import ast
+
+    from pyvc import extract
+
+    try:
+        node, _, _ = extract.find(key)
+    except (KeyError, OSError):
+        return default
+    for st in node.body:
+        val, tgt = getattr(st, "value", None), None
+        if isinstance(st, ast.AnnAssign) and isinstance(st.target, ast.Name):
+            tgt = st.target.id
+        elif isinstance(st, ast.Assign) and len(st.targets) == 1 and isinstance(st.targets[0], ast.Name):
+            tgt = st.targets[0].id
+        if tgt is None or val is None:
+            continue
+        if kind == "list" and isinstance(val, ast.List) and not val.elts:
+            return tgt
+        if kind == "set" and isinstance(val, ast.Call) and isinstance(val.func, ast.Name) and val.func.id == "set":
+            return tgt
+    return default
+
+
 PPOS = z3.Function("parent_pos", z3.IntSort(), z3.IntSort())  # ghost: position of a kept entry's parent entry
 
 
@@ -674,6 +700,7 @@ def register_cut_tree(R):
     K = _SUBTREE_KIT
     nof, col, sel, list_view = K["nof"], K["col"], K["sel"], K["list_view"]
     I, B = z3.IntSort(), z3.BoolSort()
+    REM = local_collection_name(f"{TU}:cut_tree", "list")  # cut_tree's local list of removals (whatever it is called)
     # the user's enter callback is an ARBITRARY function of (node, incoming value) -> (value, removal flag); values are opaque
     # references (0 = None)
     UE_VAL = z3.Function("user_enter_value", I, I, I)
@@ -748,7 +775,7 @@ def register_cut_tree(R):
     def J(E, v, ENT, LEFT, ctx):
         """`removals` lists exactly the nodes designated so far, each once (ghost inverse `at`)"""
         mode = E.spec_extra["mode"]
-        A, ln = list_view(v["removals"])
+        A, ln = list_view(v[REM])
         g = v["G6"].fields
         at = g["at"].arr
         a, x, k = z3.Int(fresh_name("a")), z3.Int(fresh_name("x")), z3.Int(fresh_name("k"))
@@ -773,7 +800,7 @@ def register_cut_tree(R):
         return to_z3(val, "oref") == sel(v["G6"].fields["val"].arr, x)
 
     def ghost_step(E, v, x, ctx):
-        A, ln = list_view(v["removals"])
+        A, ln = list_view(v[REM])
         G = v["G6"]
         G.fields["at"].arr = z3.Store(G.fields["at"].arr, x, ln - 1)
 
@@ -838,7 +865,7 @@ def register_cut_tree(R):
           requires=[K["wf_clause"](w, "tree") for w in K["WF"]],
           ghost_entry=define_designated,
           ensures=[(LABEL.get(nm, nm), post(nm)) for nm in CT_POSTS] + [("leave-callback-handed-its-childrens-values-in-order", post("callback-handed-its-childrens-values-in-order"))],
-          options=dict(traverse_rule=Rule(J, Qe=Qe, Ql=Ql, modifies=[("removals", "int"), "G6"], enter_kind=lambda E: (fresh("oref", "pv"), fresh("bool", "pr")), leave_kind="oref",
+          options=dict(traverse_rule=Rule(J, Qe=Qe, Ql=Ql, modifies=[(REM, "int"), "G6"], enter_kind=lambda E: (fresh("oref", "pv"), fresh("bool", "pr")), leave_kind="oref",
                                           ghost_enter=ghost_step, ghost_leave=ghost_step),
                        hints={"post/removed-iff-designated-by-the-callback-or-below-a-removed-node": induction_hint}),
           notes="enter form: the user callback is an uninterpreted function of (node, incoming value); leave form: arbitrary results recorded in ghost "
@@ -866,13 +893,13 @@ def register_cut_tree(R):
             d = dict(n=n, __ghost__=dict(log=log))
             if form == "enter":
                 d["parent"] = (fresh("oref", "pv"), S.bool("pr")) if with_parent else None
-                d["__closure__"] = dict(removals=rem, enter=S.callback("enter", user))
+                d["__closure__"] = {REM: rem, "enter": S.callback("enter", user)}
             else:
                 ch = S.plist("oref", name="children")
                 ch.frozen = True
                 d["children"] = ch
-                d["__closure__"] = dict(removals=rem, leave=S.callback("leave", user))
-            d["removals"] = rem  # visible to the clauses (old(removals) = the list at entry)
+                d["__closure__"] = {REM: rem, "leave": S.callback("leave", user)}
+            d[REM] = rem  # visible to the clauses (old(removals) = the list at entry)
             return d
 
         return f
@@ -899,10 +926,10 @@ def register_cut_tree(R):
             if flag is None:
                 return False
             if which == "listed":  # the node's id is appended to `removals` iff the returned / reported flag is set; nothing else changes
-                A1, l1 = list_view(v["removals"])
-                A0, l0 = list_view(o["removals"])
+                A1, l1 = list_view(v[REM])
+                A0, l0 = list_view(o[REM])
                 j = z3.Int(fresh_name("j"))
-                return z3.And(v["removals"].uid == o["removals"].uid, l1 == l0 + z3.If(flag, 1, 0), z3.Implies(flag, sel(A1, l0) == me),
+                return z3.And(v[REM].uid == o[REM].uid, l1 == l0 + z3.If(flag, 1, 0), z3.Implies(flag, sel(A1, l0) == me),
                               z3.ForAll([j], z3.Implies(z3.And(j >= 0, j < l0), sel(A1, j) == sel(A0, j))))
             node = o["n"]
             if form == "enter":
@@ -1015,6 +1042,7 @@ def register_cut_by_type(R):
     nof, col, sel = K["nof"], K["col"], K["sel"]
     I, B = z3.IntSort(), z3.BoolSort()
     TT = "swcgeom/transforms/tree.py"
+    REM = local_collection_name(f"{TT}:CutByType.__call__", "set")  # the local set of removals (whatever it is called)
 
     def setup(S):
         from swcgeom.transforms.tree import CutByType
@@ -1028,7 +1056,7 @@ def register_cut_by_type(R):
     def J(E, v, ENT, LEFT, ctx):
         """`removals` holds the nodes of another type that are not (yet) known to have a kept child; keep[x] (the value `leave`
         returned at x) says: x is of the type or one of its children is kept"""
-        rem, t = v["removals"], v["x"]
+        rem, t = v[REM], v["x"]
         if not isinstance(rem, SymSet):
             return False
         ty = to_z3(v["self"].fields["type"], "int")
@@ -1096,7 +1124,7 @@ def register_cut_by_type(R):
     R.add(f"{TT}:CutByType.__call__", prop="C06", setup=setup,
           requires=[K["wf_clause"](w, "x") for w in K["WF"]],
           ensures=[(nm, post(nm)) for nm in POSTS],
-          options=dict(traverse_rule=Rule(J, Ql=Ql, modifies=["removals", G6], leave_kind="bool", ghost_leave=ghost_leave),
+          options=dict(traverse_rule=Rule(J, Ql=Ql, modifies=[REM, G6], leave_kind="bool", ghost_leave=ghost_leave),
                        hints={"post/kept-iff-of-the-type-or-parent-of-a-kept-node": induction_hint}),
           notes="kept = the nodes of the type and all their ancestors (the unique fixpoint of `of the type, or parent of a kept node` on a finite tree); "
                 "`removals` is a Python set of ids; to_subtree through its proved contract")
@@ -1109,7 +1137,7 @@ def register_cut_by_type(R):
         rem = SymSet(z3.Const(fresh_name("removals_mem"), z3.ArraySort(I, B)), "removals")
         kc = S.plist("bool", name="keep_children")
         kc.frozen = True
-        return dict(n=node_obj(S, t), keep_children=kc, removals=rem, __closure__=dict(removals=rem))
+        return {"n": node_obj(S, t), "keep_children": kc, REM: rem, "__closure__": {REM: rem}}
 
     def lv_in_range(E, v, o):
         i = to_z3(v["n"].fields["idx"], "int")
@@ -1119,12 +1147,12 @@ def register_cut_by_type(R):
         def f(E, v, o):
             node = o["n"]
             me = sel(col(node.fields["attach"], "id").arr, to_z3(node.fields["idx"], "int"))
-            mem0, mem1 = o["removals"].mem, v["removals"].mem
+            mem0, mem1 = o[REM].mem, v[REM].mem
             A, ln = K["list_view"](o["keep_children"])
             k, q = z3.Int(fresh_name("k")), z3.Int(fresh_name("q"))
             some_child_kept = z3.Exists([k], z3.And(k >= 0, k < ln, sel(A, k)))
             if which == "set":
-                return z3.And(v["removals"].uid == o["removals"].uid, sel(mem1, me) == z3.And(sel(mem0, me), z3.Not(some_child_kept)),
+                return z3.And(v[REM].uid == o[REM].uid, sel(mem1, me) == z3.And(sel(mem0, me), z3.Not(some_child_kept)),
                               z3.ForAll([q], z3.Implies(q != me, sel(mem1, q) == sel(mem0, q))))
             return to_z3(E.truth(v["result"]), "bool") == z3.Not(sel(mem1, me))
 
@@ -1181,6 +1209,7 @@ def register_order_call(R):
     nof, col, sel, list_view = K["nof"], K["col"], K["sel"], K["list_view"]
     I, B = z3.IntSort(), z3.BoolSort()
     TT = "swcgeom/transforms/tree.py"
+    REM = local_collection_name(f"{TU}:cut_tree", "list")  # the local list of the inlined cut_tree
 
     def setup(S):
         from swcgeom.transforms.tree import CutByFurcationOrder
@@ -1213,7 +1242,7 @@ def register_order_call(R):
     def J(E, v, ENT, LEFT, ctx):
         """cut_tree's `removals` lists exactly the entered nodes whose carried level reaches the order, each once (ghost inverse `at`)"""
         LVL, CAR, kmax = ghosts(E, ctx)
-        A, ln = list_view(v["removals"])
+        A, ln = list_view(v[REM])
         at = G6(E).fields["at"].arr
         a, x = z3.Int(fresh_name("a")), z3.Int(fresh_name("x"))
         member = lambda q: z3.And(sel(ENT, q), CAR(q) >= kmax)
@@ -1229,7 +1258,7 @@ def register_order_call(R):
         return z3.And(to_z3(val[0], "int") == CAR(x), to_z3(E.truth(val[1]), "bool") == (CAR(x) >= kmax))
 
     def ghost_enter(E, v, x, ctx):
-        A, ln = list_view(v["removals"])
+        A, ln = list_view(v[REM])
         g = G6(E).fields["at"]
         g.arr = z3.Store(g.arr, x, ln - 1)
 
@@ -1322,7 +1351,7 @@ def register_order_call(R):
     R.add(f"{TT}:CutByFurcationOrder.__call__", prop="C06", setup=setup,
           requires=[K["wf_clause"](w, "x") for w in K["WF"]],
           ensures=[(nm, post(nm)) for nm in POSTS],
-          options=dict(traverse_rule=Rule(J, Qe=Qe, modifies=[("removals", "int"), G6], enter_kind=lambda E: (fresh("int", "plevel"), fresh("bool", "premoved")), ghost_enter=ghost_enter),
+          options=dict(traverse_rule=Rule(J, Qe=Qe, modifies=[(REM, "int"), G6], enter_kind=lambda E: (fresh("int", "plevel"), fresh("bool", "premoved")), ghost_enter=ghost_enter),
                        count_model="rank-select",
                        hints={"enter/invariant-preserved": count_hint, "post/a-furcation-is-a-node-that-two-distinct-rows-name-as-parent": furc_hint,
                               "post/removed-iff-the-furcation-level-reaches-the-order": induction_hint}),
